@@ -47,6 +47,7 @@ type JobResult struct {
 	Nodes       int
 	Assumes     []string
 	SolverErrs  []string
+	Slow        []string
 }
 
 type JobOpts struct {
@@ -55,6 +56,7 @@ type JobOpts struct {
 	MaxVisits int
 	MaxSteps  int
 	Trace     bool
+	Eager     bool
 }
 
 func (w *World) harnessFn(pkg, name string) (*ssa.Function, error) {
@@ -106,7 +108,15 @@ func (w *World) RunJob(spec JobSpec, o JobOpts) (res *JobResult) {
 		}
 	}
 	x := &Exec{W: w, Ctx: ctx, Solver: solver, Params: spec.Params, MaxVisits: o.MaxVisits, MaxSteps: o.MaxSteps,
-		feasCache: map[feasKey]feasRes{}, Trace: o.Trace}
+		feasCache: map[feasKey]feasRes{}, Trace: o.Trace, Lazy: !o.Eager}
+	if os.Getenv("SYMGO_SITES") != "" {
+		x.QuerySites = map[string]int{}
+		defer func() {
+			for k, v := range x.QuerySites {
+				fmt.Println("SITE", v, k)
+			}
+		}()
+	}
 	if x.MaxVisits == 0 {
 		x.MaxVisits = 400
 	}
@@ -127,6 +137,7 @@ func (w *World) RunJob(spec JobSpec, o JobOpts) (res *JobResult) {
 		res.Nodes = ctx.NumNodes()
 		res.Assumes = x.Assumes
 		res.SolverErrs = solver.Errors
+		res.Slow = append(solver.Slow, fmt.Sprintf("define=%v wait=%v model=%v", solver.TDefine, solver.TWait, solver.TModel))
 		for _, f := range x.Findings {
 			res.Findings = append(res.Findings, FindingOut{Kind: f.Kind, Msg: f.Msg, Pos: f.Pos, Known: f.Known, Unknown: f.Unknown, Inputs: x.inputsFromModel(f.Model)})
 		}
